@@ -84,6 +84,17 @@ def model(events):
     return out, rest
 
 
+def stable(obj):
+    """repr() that does not depend on set iteration order (hash seed)."""
+    if isinstance(obj, (set, frozenset)):
+        return "{" + ",".join(sorted(stable(x) for x in obj)) + "}"
+    if isinstance(obj, dict):
+        return "{" + ",".join(sorted(stable(k) + ":" + stable(v) for k, v in obj.items())) + "}"
+    if isinstance(obj, (list, tuple)):
+        return "(" + ",".join(stable(x) for x in obj) + ")"
+    return repr(obj)
+
+
 def canon_model(r):
     return (r["id"], r["status"], frozenset(r["tags"]), tuple(r["ts"]),
             tuple(sorted((k, b"".join(v)) for k, v in r["files"].items())))
@@ -115,7 +126,7 @@ def x_two_runs(ctx, case):
         ss.stopTestRun()
         fin, rest = model(events)
         ctx.check(got[:n_fin] == [canon_model(r) for r in fin] and
-                  sorted(map(repr, got[n_fin:])) == sorted(repr(canon_model(r)) for r in rest),
+                  sorted(map(stable, got[n_fin:])) == sorted(stable(canon_model(r)) for r in rest),
                   "dict.finals-in-order", lambda: {"two-runs": True, "got": list(got), "events": events})
         counted = [r for r in fin + rest if r["status"] != "exists"]
         bad = [r for r in counted if r["status"] in ("fail", "inprogress", "unknown")]
@@ -141,7 +152,7 @@ def x_seq(ctx, case):
     s.stopTestRun()
     ctx.check(got[:n_fin] == [canon_model(r) for r in fin], "dict.finals-in-order",
               lambda: {"got": got[:n_fin], "want": [canon_model(r) for r in fin], **detail()})
-    ctx.check(sorted(map(repr, got[n_fin:])) == sorted(repr(canon_model(r)) for r in rest),
+    ctx.check(sorted(map(stable, got[n_fin:])) == sorted(stable(canon_model(r)) for r in rest),
               "dict.incomplete-at-stop",
               lambda: {"got": got[n_fin:], "want": [canon_model(r) for r in rest], **detail()})
     # ---- StreamSummary --------------------------------------------------------------------
@@ -215,7 +226,7 @@ def x_seq(ctx, case):
     ctx.check(got_fin == [want_bracket(r) for r in fin2], "ext.replay-matches-model",
               lambda: {"got": got_fin, "want": [want_bracket(r) for r in fin2], **detail()})
     def key(b):
-        return repr(sorted(b.items()))
+        return stable(b)
 
     ctx.check(sorted(map(key, got_rest)) == sorted(key(want_bracket(r)) for r in rest2),
               "ext.incomplete-at-stop",
